@@ -176,12 +176,40 @@ func genC07(t *rapid.T) c07Case {
 
 func algID(a string) uint8 { return uint8(a[3] - '0') }
 
+// withCanary returns a copy of b that sits in a larger buffer (spare capacity behind it, as when the message is a
+// slice of a receive buffer) and a function telling whether the octets behind it are untouched.
+func withCanary(b []byte) ([]byte, func() bool) {
+	buf := make([]byte, len(b)+32)
+	copy(buf, b)
+	for i := len(b); i < len(buf); i++ {
+		buf[i] = 0x5c ^ byte(i)
+	}
+	return buf[:len(b)], func() bool {
+		for i := len(b); i < len(buf); i++ {
+			if buf[i] != 0x5c^byte(i) {
+				return false
+			}
+		}
+		return true
+	}
+}
+
 func c07One(c c07Call) (key string, err error) {
 	var k [16]byte
 	copy(k[:], c.Key)
-	in := append([]byte{}, c.Msg...)
+	in, inOK := withCanary(c.Msg)
+	defer func() {
+		if err == nil && !inOK() {
+			key, err = c.Alg+":wrote-behind-the-message", fmt.Errorf("%s wrote behind the %d octets of the message it was given", c.Alg, len(c.Msg))
+		}
+	}()
 	if c.Alg[1] == 'E' {
-		buf := append([]byte{}, c.Msg...)
+		buf, bufOK := withCanary(c.Msg)
+		defer func() {
+			if err == nil && !bufOK() {
+				key, err = c.Alg+":wrote-behind-the-message", fmt.Errorf("%s wrote behind the %d octets of the message it ciphers in place", c.Alg, len(c.Msg))
+			}
+		}()
 		e := security.NASEncrypt(algID(c.Alg), k, c.Count, c.Bearer, c.Dir, buf)
 		if c.Refusal {
 			if e == nil {
